@@ -57,17 +57,19 @@ CHECKS = {
     "C04": dict(
         text="Coq: for every field, size, triangular patterns and L, U with non-zero diagonal and L*U = A, the modelled "
              "forward/backward substitution of LinearSolver and LinearSolverInPlace returns x with A x = b "
-             "(C04_solve_gives_Ax_eq_b, C04_solve_in_place_gives_Ax_eq_b; induction over rows); for the in-place Doolittle pair "
-             "pairs (Doolittle and Mozart) the premise is discharged: factor-then-solve gives A x = b with no hypothesis on "
-             "the factors (C04_doolittle_in_place_factor_then_solve, C04_mozart_in_place_factor_then_solve), and so is it for "
-             "the separate-storage Doolittle pair (C04_doolittle_factor_then_solve). Tie: real "
+             "(C04_solve_gives_Ax_eq_b, C04_solve_in_place_gives_Ax_eq_b; induction over rows); for all four factorisations "
+             "the premise is discharged: factor-then-solve gives A x = b with no hypothesis on the factors, whatever the "
+             "L/U storage held before (C04_doolittle_in_place_factor_then_solve, C04_mozart_in_place_factor_then_solve, "
+             "C04_doolittle_factor_then_solve, C04_mozart_factor_then_solve: the symbolic patterns are triangular and L's "
+             "diagonal is stored as 1). Tie: real "
              "LinearSolver/LinearSolverInPlace templates over Z_p vs extracted model, x per block, same case space as C03 "
-             "with random right-hand sides, row-major and grouped dense vectors, padding rows holding garbage. Oracle: "
-             "A*x == b over Z_p on the implementation.",
+             "with random right-hand sides, row-major and grouped dense vectors, padding rows holding garbage; the same "
+             "solver object factors a second matrix between Factor and Solve; large systems (n up to 370, 10^5 stored "
+             "elements) by the implementation oracle alone. Oracle: A*x == b over Z_p on the implementation.",
         note="Premise L*U = A comes from C03, proved there for all four decompositions. "
              "Trusted: Coq kernel, extraction, harness, Zp class.",
         technique="Coq proof (induction over substitution rows, any field) + exact-field differential tie",
-        ref="6 C04"),
+        ref="7 C04"),
     "C05": dict(
         text="Coq theorems over the model of the integrator templates (policies as parameters, induction over every "
              "accept/reject history): at every Rosenbrock attempt, first or retry, separate-L/U or in-place, the matrix "
